@@ -30,9 +30,13 @@ LEVEL_TEXT = ("Generated obligations decided in Lean on the regenerated effect i
               "Theorems: for the cached-likelihood machine every history of calls returns eval(build, x) at every point "
               "(induction over histories, invariant cache ∈ {none, build}); outputs of a seeded history are a function of the seed; "
               "for evaluations that do not read the generator (sharp, by C04 sharp_deterministic) the output sequence is seed-"
-              "independent.  Dynamic tie: random histories on real objects with snapshots of every caller-supplied structure, "
+              "independent; for the whole object (cache AND generator) every history from any reachable state equals the cache-free "
+              "seeded run (full_run_eq_seeded), a copy taken after ANY history — with the cache kept or dropped — returns under the "
+              "same seed the values of the original and of a freshly built object (copy_identical), and with sharp hyper-parameters "
+              "every reachable state and every copy returns out(x) (full_sharp_history_independent).  Dynamic tie: random histories on real objects with snapshots of every caller-supplied structure, "
               "read-only vectors, re-seeding, deepcopy / pickle round trips.")
-LEVEL_NOTE = "partial: syntactic effect analysis + dynamic histories; pickle/deepcopy validated only; determinism of external libraries assumed"
+LEVEL_NOTE = ("partial: syntactic effect analysis + dynamic histories; that pickle/deepcopy reproduce the object state (cache kept or dropped) "
+              "is the modelled assumption of copy_identical and is validated on the real object only; determinism of external libraries assumed")
 TECHNIQUE = "Lean 4 proof (induction over call histories, decide on a generated effect inventory) + dynamic history correspondence"
 
 
